@@ -291,7 +291,7 @@ theorem sm_le_of_step (s s' : MState) (ev : Ev) (r : Reply) (hstep : mstep s ev 
       split at hstep
       · cases hstep
       · simp only [Out.ok.injEq] at hstep; rw [← hstep.1]; exact Nat.le_refl _
-  | «have» a i =>
+  | «have» a i chosen =>
     simp only [mstep] at hstep
     cases hp : findPeer s a with
     | none => simp [hp] at hstep
@@ -299,23 +299,15 @@ theorem sm_le_of_step (s s' : MState) (ev : Ev) (r : Reply) (hstep : mstep s ev 
       simp only [hp] at hstep
       split at hstep
       · cases hstep
-      · split at hstep
-        · rename_i hcond
+      · cases chosen with
+        | none => simp only [Out.ok.injEq] at hstep; rw [← hstep.1]; exact Nat.le_refl _
+        | some c =>
+          simp only at hstep
           split at hstep
-          · simp only [Out.ok.injEq] at hstep; rw [← hstep.1]
-            simp only []
-            -- Missing → Reserved(1): not `Have` before, not `Have` after
-            have hmiss : s.statuses.getD i .have = .missing := hcond.1
-            cases hx : s.statuses[i]? with
-            | none => unfold modifyAt; rw [hx]; exact Nat.le_refl _
-            | some x =>
-              have hxm : x = .missing := by rw [getD_eq, hx] at hmiss; exact hmiss
-              rw [modifyAt_split s.statuses i x _ hx]
-              conv => rhs; rw [(split_at s.statuses i x hx).1]
-              simp only [sm_append, sm_cons, hxm]
-              simp
+          · split at hstep
+            · simp only [Out.ok.injEq] at hstep; rw [← hstep.1]; simp only []; rw [hi]; exact Nat.le_refl _
+            · simp only [Out.ok.injEq] at hstep; rw [← hstep.1]; exact Nat.le_refl _
           · simp only [Out.ok.injEq] at hstep; rw [← hstep.1]; exact Nat.le_refl _
-        · simp only [Out.ok.injEq] at hstep; rw [← hstep.1]; exact Nat.le_refl _
   | pieceDone a chosen =>
     simp only [mstep] at hstep
     cases hp : findPeer s a with
@@ -424,7 +416,7 @@ theorem sm_eq_of_step (s s' : MState) (ev : Ev) (r : Reply) (hstep : mstep s ev 
       split at hstep
       · cases hstep
       · simp only [Out.ok.injEq] at hstep; rw [← hstep.1]
-  | «have» a i =>
+  | «have» a i chosen =>
     simp only [mstep] at hstep
     cases hp : findPeer s a with
     | none => simp [hp] at hstep
@@ -432,23 +424,15 @@ theorem sm_eq_of_step (s s' : MState) (ev : Ev) (r : Reply) (hstep : mstep s ev 
       simp only [hp] at hstep
       split at hstep
       · cases hstep
-      · split at hstep
-        · rename_i hcond
+      · cases chosen with
+        | none => simp only [Out.ok.injEq] at hstep; rw [← hstep.1]
+        | some c =>
+          simp only at hstep
           split at hstep
+          · split at hstep
+            · simp only [Out.ok.injEq] at hstep; rw [← hstep.1]; simp only []; rw [hi]
+            · simp only [Out.ok.injEq] at hstep; rw [← hstep.1]
           · simp only [Out.ok.injEq] at hstep; rw [← hstep.1]
-            simp only []
-            -- Missing → Reserved(1): not `Have` before, not `Have` after
-            have hmiss : s.statuses.getD i .have = .missing := hcond.1
-            cases hx : s.statuses[i]? with
-            | none => unfold modifyAt; rw [hx]
-            | some x =>
-              have hxm : x = .missing := by rw [getD_eq, hx] at hmiss; exact hmiss
-              rw [modifyAt_split s.statuses i x _ hx]
-              conv => rhs; rw [(split_at s.statuses i x hx).1]
-              simp only [sm_append, sm_cons, hxm]
-              simp
-          · simp only [Out.ok.injEq] at hstep; rw [← hstep.1]
-        · simp only [Out.ok.injEq] at hstep; rw [← hstep.1]
   | pieceDone a chosen => exact absurd rfl (hnd a chosen)
   | pieceCancel a chosen =>
     simp only [mstep] at hstep
@@ -538,7 +522,7 @@ theorem T4_extraction_started_iff_complete (x : XState) (h : XReach false x) :
           | unchoke a c => exact absurd (sm_eq_of_step x.m s' _ r' hm (fun _ _ h => by cases h)) (by omega)
           | interested a => exact absurd (sm_eq_of_step x.m s' _ r' hm (fun _ _ h => by cases h)) (by omega)
           | notInterested a c => exact absurd (sm_eq_of_step x.m s' _ r' hm (fun _ _ h => by cases h)) (by omega)
-          | «have» a i => exact absurd (sm_eq_of_step x.m s' _ r' hm (fun _ _ h => by cases h)) (by omega)
+          | «have» a i ch => exact absurd (sm_eq_of_step x.m s' _ r' hm (fun _ _ h => by cases h)) (by omega)
           | bitfield a b c => exact absurd (sm_eq_of_step x.m s' _ r' hm (fun _ _ h => by cases h)) (by omega)
           | pieceCancel a c => exact absurd (sm_eq_of_step x.m s' _ r' hm (fun _ _ h => by cases h)) (by omega)
 
